@@ -210,6 +210,9 @@ def check_property(prop, tier, seed):
                 "source_sha256_16": r.get("source_sha256_16"),
                 "dropped_by_extraction": r.get("dropped"),
                 "callee_contracts_used": r.get("callee_contracts"),
+                "contract_local_axioms": r.get("local_axioms"),
+                "global_axioms_excluded": r.get("excluded_axioms"),
+                "extra_postcondition_derived_by_lemmas": r.get("derived_by"),
                 "vacuity": r.get("vacuity"),
             }
             for r in p_results
